@@ -115,3 +115,30 @@ def corpus_expr(line):
     if line.startswith("hex\t"):
         return C.unhexs(line[4:])
     return line
+
+
+ERRTAIL = re.compile(r" line=\d+ col=\d+ expr=[0-9a-f]*")
+
+
+def canon_eval(o):
+    """canonical form of an eval-stream result: value, or error class/kind/fields/offset (no wording, no line/col)"""
+    if o is None:
+        return "NONE"
+    o = o.split("\t")[0]
+    o = ERRTAIL.sub("", o)
+    if o.startswith("C E"):
+        return "C E"
+    return o.replace(" internal", "")
+
+
+def eval_run(ctx, cases):
+    """cases: [(expr, doc-encoding)] → (impl results, model results) raw"""
+    lines = [C.hexs(e) + "\t" + d for e, d in cases]
+    return run_both(ctx, "eval", lines)
+
+
+def sem_tag(model_raw):
+    for p in (model_raw or "").split("\t")[1:]:
+        if p.startswith("sem="):
+            return p[4:]
+    return None
